@@ -26,6 +26,8 @@ def one(meta):
 
 
 metas = sorted(glob.glob(os.path.join(V, 'seeded', '*', 'meta.json')))
-with ThreadPoolExecutor(max_workers=6) as ex:
+if len(sys.argv) > 1:
+    metas = [m for m in metas if any(a in m for a in sys.argv[1:])]
+with ThreadPoolExecutor(max_workers=int(os.environ.get('SEED_JOBS', '6'))) as ex:
     for r in ex.map(one, metas):
         print(r)
